@@ -37,19 +37,20 @@ void h_asn1_time_to_str(void)
 	CANARY("returned");
 }
 
-/* lemma over the two contracts: decode(encode(t)) == t for every t the encoder accepts */
-//@job name=asn1_time_roundtrip props=C14 replace=asn1_time_to_str,asn1_time_from_str layer=lemma timeout=900
+/* lemma over the two contracts: decode(encode(t)) == t for every t the encoder accepts.  The two calls are represented by
+   their postcondition predicates (the very macros the contracts consist of), assumed over arbitrary results: this is what
+   --replace-call-with-contract does, without the thousands of frame obligations DFCC would add to a harness that has no code */
+typedef struct { char s[15]; int64_t t, back; int utc, r1, r2; } lem_in;
+DECL_INPUT(lem_in);
+//@job name=asn1_time_roundtrip props=C14 unwind=2 layer=lemma-over-contract-predicates timeout=900 checks=-signed,-ptrarith native=0 solver=kissat
 void h_asn1_time_roundtrip(void)
 {
-	INPUT(tm_in, T);
-	size_t n = (T.utc & 1) ? 13 : 15;
-	char *s = malloc(n); ASSUME(s != NULL);
-	time_t back = 0;
-	int r1 = asn1_time_to_str(T.utc, (time_t)T.t, s);
-	if (r1 == 1) {
-		int r2 = asn1_time_from_str(T.utc, &back, s);
-		CHECK(r2 == 1, "the encoder's text is accepted by the decoder");
-		CHECK(r2 != 1 || (int64_t)back == T.t, "decode(encode(t)) == t");
+	INPUT(lem_in, L);
+	ASSUME(T_TO_STR_POST(L.r1, L.utc, L.t, L.s));
+	ASSUME(T_FROM_STR_POST(L.r2, L.utc, L.back, L.s));
+	if (L.r1 == 1) {
+		CHECK(L.r2 == 1, "the encoder's text is accepted by the decoder");
+		CHECK(L.r2 != 1 || L.back == L.t, "decode(encode(t)) == t");
 		CANARY("roundtrip");
 	}
 	CANARY("returned");
